@@ -119,7 +119,9 @@ def normalise_cmp(op, a, b, loc="?", bb=None, lty=None):
         # `a.saturating_sub(p) < n` / `a - p < n` is `a < p + n` (for the saturating form when n > 0; at n = 0 neither form
         # lets anything through that the other stops: both are false): one fact for the check written either way
         a0 = deep_strip(A)
-        if a0[0] == "bin" and a0[1] == "Sub" and strip_casts(a0[3])[0] != "const":
+        rawA = strip_casts(A)
+        wrapping = rawA[0] == "call" and X.last_seg(rawA[1] or "") in ("wrapping_sub", "overflowing_sub")
+        if a0[0] == "bin" and a0[1] == "Sub" and strip_casts(a0[3])[0] != "const" and not wrapping:
             y, b0 = a0[3], deep_strip(B)
             A, B = a0[2], ("bin", "Add", y, b0)      # subtrahend first: `pos + len`
     c = Cmp()
